@@ -143,6 +143,27 @@ func runScenario(t *testing.T, sc scenario) (obs observed, fails []failure) {
 			idx[addrName(a)] = a
 		}
 
+		// scheduling point at the entry of attemptReconnect: while holdTimers is set, the goroutine of
+		// an expired timer waits there (scheduling latency chosen by the script)
+		holdTimers := false
+		releasing := false
+		var heldTimers []chan struct{}
+		peer.VerifYieldHook = func(point string) {
+			if point != "peer.attemptReconnect.enter" {
+				return
+			}
+			mu.Lock()
+			if !holdTimers {
+				mu.Unlock()
+				return
+			}
+			ch := make(chan struct{})
+			heldTimers = append(heldTimers, ch)
+			mu.Unlock()
+			<-ch
+		}
+		defer func() { peer.VerifYieldHook = nil }()
+
 		// called from the implementation when a connection attempt starts
 		begin := func(addr string) *flight {
 			a := idx[addr]
@@ -162,7 +183,13 @@ func runScenario(t *testing.T, sc scenario) (obs observed, fails []failure) {
 					overlap = true
 				}
 			}
-			if overlap {
+			if releasing && !overlap {
+				// the start was delayed by the script (held timer goroutine): only "not too early" applies
+				lo, _ := sc.Cfg.band(k[a])
+				if d := float64(s - ref[a]); d < lo {
+					fail("delay-out-of-band", "retry #%d of %s started %dns after it was due for scheduling; allowed at least %.0f", k[a], addr, s-ref[a], lo)
+				}
+			} else if overlap {
 				fail("overlapping-attempts", "retry of %s started at t=%dns while the previous attempt of the same retry sequence is still running", addr, s)
 			} else {
 				lo, hi := sc.Cfg.band(k[a])
@@ -278,6 +305,35 @@ func runScenario(t *testing.T, sc scenario) (obs observed, fails []failure) {
 				c.S.FailRead()
 			case "adv":
 				time.Sleep(time.Duration(o.D))
+			case "advhold":
+				mu.Lock()
+				holdTimers = true
+				mu.Unlock()
+				time.Sleep(time.Duration(o.D))
+				synctest.Wait()
+				mu.Lock()
+				holdTimers = false
+				mu.Unlock()
+			case "release":
+				mu.Lock()
+				hs := heldTimers
+				heldTimers = nil
+				releasing = true
+				mu.Unlock()
+				if len(hs) == 0 {
+					mu.Lock()
+					releasing = false
+					mu.Unlock()
+					done = false
+					break
+				}
+				for _, ch := range hs {
+					close(ch)
+				}
+				synctest.Wait()
+				mu.Lock()
+				releasing = false
+				mu.Unlock()
 			case "reply":
 				mu.Lock()
 				if len(inflight) == 0 {
@@ -343,6 +399,13 @@ func runScenario(t *testing.T, sc scenario) (obs observed, fails []failure) {
 
 		// teardown: stop everything, release blocked attempts, let stray timers run out
 		r.Stop()
+		mu.Lock()
+		for _, ch := range heldTimers {
+			close(ch)
+		}
+		heldTimers = nil
+		mu.Unlock()
+		synctest.Wait()
 		for {
 			mu.Lock()
 			if len(inflight) == 0 {
@@ -403,6 +466,10 @@ func witnesses() []scenario {
 			{K: "sched"}, {K: "adv", D: sec}, {K: "pause"}, {K: "reply"}, {K: "adv", D: 2 * sec}, {K: "reply"}, {K: "adv", D: 4 * sec}}},
 		{Name: "w-reset-inflight-orphan", Mode: "reconnector", Cfg: std, NAddr: 1, Ops: []op{
 			{K: "sched"}, {K: "adv", D: sec}, {K: "resetall"}, {K: "sched"}, {K: "reply"}, {K: "adv", D: sec}, {K: "reply"}, {K: "adv", D: sec}, {K: "adv", D: sec}}},
+		{Name: "w-timer-expires-during-pause-race", Mode: "reconnector", Cfg: std, NAddr: 1, Ops: []op{
+			{K: "sched"}, {K: "advhold", D: sec}, {K: "pause"}, {K: "release"}, {K: "adv", D: sec}, {K: "resume"}, {K: "sched"}, {K: "adv", D: sec}}},
+		{Name: "w-stale-timer-after-reschedule", Mode: "reconnector", Cfg: std, NAddr: 1, Ops: []op{
+			{K: "sched"}, {K: "advhold", D: sec}, {K: "sched"}, {K: "release"}, {K: "adv", D: sec}, {K: "reply"}, {K: "adv", D: 2 * sec}}},
 		{Name: "w-manager-success-drop", Mode: "manager", Cfg: std, NAddr: 1, Ops: []op{
 			{K: "sched"}, {K: "adv", D: sec}, {K: "reply", OK: true}, {K: "adv", D: 5 * sec}, {K: "drop"}, {K: "adv", D: sec}, {K: "reply", OK: true}}},
 	}
@@ -480,6 +547,22 @@ func genScenario(rd *vh.Rand, i int) scenario {
 			sc.Ops = append(sc.Ops, op{K: "cancel", A: a})
 		case x < 96 && j > n/2:
 			sc.Ops = append(sc.Ops, op{K: "stop"})
+		case x < 98:
+			d := cur - cur%125
+			if d <= 0 {
+				d = 125
+			}
+			sc.Ops = append(sc.Ops, op{K: "advhold", D: d})
+			// something happens while the expired timer's goroutine has not run yet
+			switch rd.Intn(4) {
+			case 0:
+				sc.Ops = append(sc.Ops, op{K: "pause"})
+			case 1:
+				sc.Ops = append(sc.Ops, op{K: "sched", A: a})
+			case 2:
+				sc.Ops = append(sc.Ops, op{K: "cancel", A: a}, op{K: "sched", A: a})
+			}
+			sc.Ops = append(sc.Ops, op{K: "release"})
 		default:
 			if sc.Mode == "manager" {
 				sc.Ops = append(sc.Ops, op{K: "drop", A: a})
@@ -512,6 +595,10 @@ func coqOp(o op) string {
 		return fmt.Sprintf("Cancel %s", vh.CoqN(uint64(o.A)))
 	case "stop":
 		return "Stop"
+	case "advhold":
+		return fmt.Sprintf("AdvHold %s", vh.CoqZ(o.D))
+	case "release":
+		return "Release"
 	}
 	panic("op")
 }
